@@ -181,6 +181,7 @@ class C18(Machine):
         if len(objs) > 1:
             R.probe("two_networks_interleaved")
         sig_ops = []
+        held_results = []
         for step, op in enumerate(run["ops"]):
             R.steps += 1
             o = objs[op.get("obj", 0) % len(objs)]
@@ -251,6 +252,21 @@ class C18(Machine):
             got = C.call(getattr(net, name), *args)
             want, tol = self._ref(ref, name, args)
             ok, why = C.same(got, want, tol)
+            # results that were handed out earlier are the caller's: a user
+            # who compares "before" and "after" an update must still hold
+            # the "before" values
+            for (hn, hstep, arr, snap_) in held_results:
+                if arr.tobytes() != snap_:
+                    R.violate(f"{self.pid}|{hn}|returned-array-overwritten",
+                              f"step {step}: the array that {hn} returned at "
+                              f"step {hstep} changed when {name} was "
+                              f"evaluated", victim=f"{hn}|returned-array")
+            held_results[:] = [h for h in held_results
+                               if h[2].tobytes() == h[3]]
+            if isinstance(got, np.ndarray) and got.size and ok:
+                R.probe("returned_array_held")
+                held_results.append((name, step, got, got.tobytes()))
+                del held_results[:-6]
             R.trace.append((name, args, C.digest_of(
                 np.round(np.asarray(got, dtype=complex), 5)
                 if not isinstance(got, C.Raised) else got)))
